@@ -69,6 +69,33 @@ const (
 	canonSelf    = `<presence from="` + roomMe + `" to="` + localAddr + `"><x xmlns="http://jabber.org/protocol/muc#user"><item affiliation="member" role="participant"/><status code="110"/></x></presence>`
 )
 
+// result-set-management sets in the shapes XEP-0059 allows (index, count, first
+// and last are all optional)
+var rsmShapes = []string{
+	`<set xmlns="http://jabber.org/protocol/rsm"><first>a</first><last>b</last><count>5</count></set>`,
+	`<set xmlns="http://jabber.org/protocol/rsm"><last>b</last><count>5</count></set>`,
+	`<set xmlns="http://jabber.org/protocol/rsm"><first index="3">a</first><last>b</last></set>`,
+	`<set xmlns="http://jabber.org/protocol/rsm"><count>0</count></set>`,
+	`<set xmlns="http://jabber.org/protocol/rsm"><first index="">a</first><last/><count/></set>`,
+	`<set xmlns="http://jabber.org/protocol/rsm"><first index="18446744073709551615">a</first><last>b</last><count>18446744073709551615</count></set>`,
+	`<set xmlns="http://jabber.org/protocol/rsm"/>`,
+}
+
+func pagedCanon(open, close string) []string {
+	var out []string
+	for _, r := range rsmShapes {
+		out = append(out, open+r+close)
+	}
+	return out
+}
+
+var (
+	canonItemsPgs = pagedCanon(`<query xmlns="http://jabber.org/protocol/disco#items"><item jid="people.shakespeare.lit" name="Directory of Characters"/>`, `</query>`)
+	canonCmdsPgs  = pagedCanon(`<query xmlns="http://jabber.org/protocol/disco#items" node="http://jabber.org/protocol/commands"><item jid="responder@domain" node="list" name="List"/>`, `</query>`)
+	canonPubsubPg = pagedCanon(`<pubsub xmlns="http://jabber.org/protocol/pubsub"><items node="princely_musings"><item id="x2"/>`, `</items></pubsub>`)
+	canonFinPgs   = pagedCanon(`<fin xmlns="urn:xmpp:mam:2" complete="true">`, `</fin>`)
+)
+
 var allCanon = []string{canonTime, canonVersion, canonForm, canonInfo, canonItems, canonItemsPg, canonCmds, canonRoster, canonBlock, canonPubsub, canonBookm, canonPublish, canonPSConf, canonPSDef, canonFin, canonSlot, canonBob, canonMucConf, canonCmdExec, canonCmdDone}
 
 // ------------------------------------------------------------------ helpers under test
@@ -109,7 +136,7 @@ var helpers = []helper{
 			_ = info.TokenReader()
 		}
 	}},
-	{name: "disco.FetchItems", canon: []string{canonItems, canonItemsPg}, call: func(ctx context.Context, e *env) {
+	{name: "disco.FetchItems", canon: append([]string{canonItems, canonItemsPg}, canonItemsPgs...), call: func(ctx context.Context, e *env) {
 		it := disco.FetchItems(ctx, items.Item{JID: jTo}, e.sv.Session)
 		for n := 0; it.Next() && n < 50; n++ {
 			_ = it.Item()
@@ -117,7 +144,7 @@ var helpers = []helper{
 		_ = it.Err()
 		_ = it.Close()
 	}},
-	{name: "disco.WalkItem", canon: []string{canonItems, canonItemsPg}, call: func(ctx context.Context, e *env) {
+	{name: "disco.WalkItem", canon: append([]string{canonItems, canonItemsPg}, canonItemsPgs...), call: func(ctx context.Context, e *env) {
 		n := 0
 		_ = disco.WalkItem(ctx, items.Item{JID: jTo}, e.sv.Session, func(level int, item items.Item, err error) error {
 			n++
@@ -167,7 +194,7 @@ var helpers = []helper{
 	{name: "bookmarks.Delete", canon: []string{""}, call: func(ctx context.Context, e *env) {
 		_ = bookmarks.Delete(ctx, e.sv.Session, jid.MustParse(roomBare))
 	}},
-	{name: "pubsub.Fetch", canon: []string{canonPubsub}, call: func(ctx context.Context, e *env) {
+	{name: "pubsub.Fetch", canon: append([]string{canonPubsub}, canonPubsubPg...), call: func(ctx context.Context, e *env) {
 		it := pubsub.Fetch(ctx, e.sv.Session, pubsub.Query{Node: "princely_musings", MaxItems: 3})
 		for n := 0; it.Next() && n < 50; n++ {
 			_, r := it.Item()
@@ -196,7 +223,7 @@ var helpers = []helper{
 	{name: "pubsub.SetConfig", canon: []string{""}, call: func(ctx context.Context, e *env) {
 		_ = pubsub.SetConfig(ctx, e.sv.Session, "n", form.New(form.Text("pubsub#title", form.Value("t"))))
 	}},
-	{name: "history.Fetch", canon: []string{canonFin}, pre: []string{canonMamMsg}, call: func(ctx context.Context, e *env) {
+	{name: "history.Fetch", canon: append([]string{canonFin}, canonFinPgs...), pre: []string{canonMamMsg}, call: func(ctx context.Context, e *env) {
 		_, _ = history.Fetch(ctx, history.Query{ID: "bq1", Limit: 2}, jTo, e.sv.Session)
 	}},
 	{name: "upload.GetSlot", canon: []string{canonSlot}, call: func(ctx context.Context, e *env) {
@@ -225,7 +252,7 @@ var helpers = []helper{
 			_ = ch.SetAffiliation(ctx, muc.AffiliationMember, jPeer, "nick", "reason")
 		}
 	}},
-	{name: "commands.Fetch", canon: []string{canonCmds}, call: func(ctx context.Context, e *env) {
+	{name: "commands.Fetch", canon: append([]string{canonCmds}, canonCmdsPgs...), call: func(ctx context.Context, e *env) {
 		it := commands.Fetch(ctx, jTo, e.sv.Session)
 		for n := 0; it.Next() && n < 50; n++ {
 			_ = it.Command()
